@@ -28,7 +28,9 @@ RULE = ("a case = actor scripts over {Project(); open_job(sp).init(); job.doc[k]
         "2-actor script sets are explored over ALL schedules of the real code at file-system-primitive "
         "granularity with sleep-set reduction (independent = disjoint paths), capped per case in the quick tier "
         "and complemented by seeded random schedules; 3-actor sets are sampled.  Every executed schedule counts "
-        "three model lines (trace, final tree, exits).  distinct = distinct (scripts, initial state, directive); "
+        "three model lines (trace, final tree, exits).  Plus 22 sequential 'ctx' scenarios (oracle only): inside the "
+        "loop bodies of groupby / iteration / find_jobs cursors and inside `with job:`, a document write that returned "
+        "is on disk for another process and a write another process completed is seen by the next read.  distinct = distinct (scripts, initial state, directive); "
         "non-trivial = at least two actors touch a common path")
 MODELLED = [
     "atomicity of each file-system primitive (isdir/isfile/exists/mkdir/open+read/open-for-write/write/close/"
